@@ -936,7 +936,12 @@ func checkMarshalScratch(c *core.Ctx) {
 					okp := true
 					for _, e := range x.Edges {
 						switch ee := e.(type) {
-						case *ssa.MakeSlice, *ssa.Alloc, *ssa.Parameter:
+						case *ssa.MakeSlice, *ssa.Alloc:
+						case *ssa.Parameter:
+							// as above: only the caller's []uint64 stack
+							if sl, isSl := ee.Type().Underlying().(*types.Slice); !isSl || basicKind(sl.Elem()) != types.Uint64 {
+								okp = false
+							}
 						case *ssa.Const:
 							_ = ee
 						default:
@@ -1008,6 +1013,40 @@ func checkSlotNormalisation(c *core.Ctx, rule9, rule10 string) {
 			}
 		}
 	}
+	wantKind := ""
+	// typesKind: which type list the expression denotes ("param", "result" or ""), following a local to what it was bound to
+	var typesKind func(e ast.Expr, scope []ast.Stmt, depth int) string
+	typesKind = func(e ast.Expr, scope []ast.Stmt, depth int) string {
+		txt := strings.ToLower(core.ExprStr(e))
+		if id, ok := ast.Unparen(e).(*ast.Ident); ok && depth < 2 {
+			if o := info.Uses[id]; o != nil {
+				for _, st := range scope {
+					var found ast.Expr
+					ast.Inspect(st, func(y ast.Node) bool {
+						if as, ok := y.(*ast.AssignStmt); ok && len(as.Lhs) == len(as.Rhs) {
+							for i, l := range as.Lhs {
+								if lid, ok := l.(*ast.Ident); ok && (info.Defs[lid] == o || info.Uses[lid] == o) {
+									found = as.Rhs[i]
+								}
+							}
+						}
+						return true
+					})
+					if found != nil {
+						return typesKind(found, scope, depth+1)
+					}
+				}
+			}
+		}
+		switch {
+		case strings.Contains(txt, "param"):
+			return "param"
+		case strings.Contains(txt, "result"):
+			return "result"
+		}
+		return ""
+	}
+	wrongTypes := ""
 	normalisedBefore := func(list []ast.Stmt, upto token.Pos, sliceText string) bool {
 		ok := false
 		for _, s := range list {
@@ -1018,6 +1057,13 @@ func checkSlotNormalisation(c *core.Ctx, rule9, rule10 string) {
 				if call, isC := x.(*ast.CallExpr); isC && call.Pos() < upto {
 					if f := core.Callee(info, call); f != nil && norm[f] && len(call.Args) > 0 && core.ExprStr(call.Args[0]) == sliceText {
 						ok = true
+						// what is shown before the host function ran holds parameters: the type list must be the parameters'
+						if len(call.Args) > 1 && wantKind != "" {
+							if k := typesKind(call.Args[1], list, 0); k != "" && k != wantKind {
+								ok = false
+								wrongTypes = "the slots are normalised by `" + core.ExprStr(call.Args[1]) + "` (the " + k + " types) while they hold the " + wantKind + "s: "
+							}
+						}
 					}
 				}
 				return true
@@ -1034,6 +1080,7 @@ func checkSlotNormalisation(c *core.Ctx, rule9, rule10 string) {
 		label := constNameOf(info, cc.List[0])
 		if label == "ExitCodeOK" && stackParam != nil {
 			n++
+			wantKind = "result"
 			c.Check(rule9 == "" || normalisedBefore(cc.Body, cc.End(), stackParam.Name()), rule9x(rule9), "results handed back to the caller of Call/CallWithStack are zero-extended", cc.Pos(),
 				"the 32-bit result slots are masked before returning", "the ExitCodeOK arm returns the slot slice as generated code left it: generated code writes only the low 4 bytes of i32/f32 results, so the upper halves hold stale parameter bits (the interpreter and api.EncodeI32 give zero-extended slots)")
 			continue
@@ -1069,6 +1116,10 @@ func checkSlotNormalisation(c *core.Ctx, rule9, rule10 string) {
 				}
 				n++
 				txt := core.ExprStr(call.Args[idx])
+				wantKind, wrongTypes = "param", ""
+				if se.Sel.Name == "After" {
+					wantKind = "result"
+				}
 				okNorm := normalisedBefore(cc.Body, call.Pos(), txt)
 				// a prefix s[:n] of a normalised slice is normalised, also when it was first bound to a local
 				argE := ast.Unparen(call.Args[idx])
@@ -1090,7 +1141,7 @@ func checkSlotNormalisation(c *core.Ctx, rule9, rule10 string) {
 					okNorm = normalisedBefore(cc.Body, call.Pos(), core.ExprStr(sl.X))
 				}
 				c.Check(rule9 == "" || okNorm, rule9x(rule9), fmt.Sprintf("%s in arm %s (`%s`) is zero-extended first", what, label, core.ExprStr(call.Fun)), call.Pos(),
-					"the 32-bit slots of `"+txt+"` are masked before the call", "generated code stored only the low 4 bytes of the i32/f32 values into `"+txt+"`; it is handed to Go code without masking, so the host function / listener sees stale upper halves (e.g. 0xffffffff00000005 for i32 5) where the interpreter passes zero-extended slots")
+					"the 32-bit slots of `"+txt+"` are masked before the call", wrongTypes+"generated code stored only the low 4 bytes of the i32/f32 values into `"+txt+"`; it is handed to Go code without masking, so the host function / listener sees stale upper halves (e.g. 0xffffffff00000005 for i32 5) where the interpreter passes zero-extended slots")
 				return true
 			})
 		}
